@@ -491,7 +491,8 @@ impl DebugInformation {
             let unit = self.unit_ensure(*unit_idx);
             for &line_idx in file_lines {
                 let line_row = unit.line(line_idx);
-                if !line_row.is_stmt() {
+                // the end of a sequence is an address after the last instruction, not a place
+                if !line_row.is_stmt() || line_row.end_sequence() {
                     continue;
                 }
                 let line = line_row.line;
